@@ -364,10 +364,9 @@ theorem zipExtract_overlay (root : P) (hr : GoodPath root) (hroot : root ≠ [])
 theorem tarOne_other (fs : FS) (root : P) (mask : Nat) (e : Entry) (hk : e.kind = .other) :
     tarOne fs root mask e =
       (fs, lexOK root (cleanJoin root e.name) false && ensureNoSymlinks fs root (cleanJoin root e.name)) := by
-  unfold tarOne
-  simp only [hk]
-  cases lexOK root (cleanJoin root e.name) false <;>
-    cases ensureNoSymlinks fs root (cleanJoin root e.name) <;> simp [kind_beq]
+  have hb : (e.kind == Kind.dir) = false := by rw [hk]; rfl
+  cases h1 : lexOK root (cleanJoin root e.name) false <;>
+    cases h2 : ensureNoSymlinks fs root (cleanJoin root e.name) <;> simp [tarOne, hk, hb, h1, h2]
 
 theorem tarExtract_filter (root : P) (mask : Nat) (es : List Entry) (fs : FS)
     (hok : (tarExtract fs root mask es).2 = true) :
@@ -396,6 +395,11 @@ theorem tarExtract_filter (root : P) (mask : Nat) (es : List Entry) (fs : FS)
 
 /-! ### the closed form: what exists stays, the first entry that needs an absent path decides what appears there -/
 
+theorem overlayStep_get (root : P) (mask : Nat) (t : Tree) (e : Entry) (hc : e.creates) (q : P) :
+    (overlayStep root mask t e).get q =
+      stepGet t (cleanJoin root e.name) (newNode t root mask e) (pmode e &&& mask) q := by
+  unfold overlayStep; rw [if_pos hc]
+
 theorem overlayStep_keep (root : P) (mask : Nat) (t : Tree) (e : Entry) (q : P) (n : Nd) (h : t.get q = some n) :
     (overlayStep root mask t e).get q = some n := by
   unfold overlayStep
@@ -411,20 +415,51 @@ theorem overlay_keep (root : P) (mask : Nat) (es : List Entry) (t : Tree) (q : P
   | cons x xs ih => exact ih _ (overlayStep_keep root mask t x q n h)
 
 theorem overlayStep_untouched (root : P) (mask : Nat) (t : Tree) (e : Entry) (q : P) (h : t.get q = none)
-    (hnt : ¬ (e.creates ∧ q <+: cleanJoin root e.name ∧ q ≠ [])) (hq0 : q ≠ cleanJoin root e.name ∨ q = []) :
-    (overlayStep root mask t e).get q = none := by
+    (hnt : ¬ (e.creates ∧ q <+: cleanJoin root e.name)) : (overlayStep root mask t e).get q = none := by
   unfold overlayStep
   split
   · rename_i hc
+    have hnp : ¬ q <+: cleanJoin root e.name := fun h' => hnt ⟨hc, h'⟩
+    have hqp : q ≠ cleanJoin root e.name := fun e' => hnp (e' ▸ List.prefix_refl _)
     show stepGet t _ _ _ q = none
     unfold stepGet; rw [h]; simp only
-    by_cases hqp : q = cleanJoin root e.name
-    · rcases hq0 with h0 | h0
-      · exact absurd hqp h0
-      · exfalso; apply hnt
-        sorry
-    · rw [if_neg hqp, if_neg]
-      exact fun h' => hnt ⟨hc, h'⟩
+    rw [if_neg hqp, if_neg (fun h' => hnp h'.1)]
   · exact h
+
+theorem overlay_untouched (root : P) (mask : Nat) (es : List Entry) (t : Tree) (q : P) (h : t.get q = none)
+    (hnt : ∀ e ∈ es, ¬ (e.creates ∧ q <+: cleanJoin root e.name)) :
+    (es.foldl (overlayStep root mask) t).get q = none := by
+  induction es generalizing t with
+  | nil => exact h
+  | cons x xs ih =>
+    exact ih _ (overlayStep_untouched root mask t x q h (hnt x (by simp))) (fun e he => hnt e (by simp [he]))
+
+/-- **the first entry that needs an absent path creates it**: as a directory with that entry's parent mode when the
+    path is a proper prefix of the entry's path — later entries (a directory entry for this very path with another
+    mode included) do not change it -/
+theorem overlay_first_parent (root : P) (mask : Nat) (l1 : List Entry) (e : Entry) (l2 : List Entry) (t : Tree) (q : P)
+    (hq : t.get q = none) (hne : q ≠ [])
+    (hl1 : ∀ e' ∈ l1, ¬ (e'.creates ∧ q <+: cleanJoin root e'.name))
+    (hc : e.creates) (hpre : q <+: cleanJoin root e.name) (hqp : q ≠ cleanJoin root e.name) :
+    ((l1 ++ e :: l2).foldl (overlayStep root mask) t).get q = some (.dir (pmode e &&& mask)) := by
+  rw [List.foldl_append, List.foldl_cons]
+  apply overlay_keep
+  have h1 := overlay_untouched root mask l1 t q hq hl1
+  rw [overlayStep_get root mask _ e hc]
+  unfold stepGet; rw [h1]; simp only
+  rw [if_neg hqp, if_pos ⟨hpre, hne⟩]
+
+/-- … and as the entry's own node when the path is the entry's path -/
+theorem overlay_first_self (root : P) (mask : Nat) (l1 : List Entry) (e : Entry) (l2 : List Entry) (t : Tree)
+    (hq : t.get (cleanJoin root e.name) = none)
+    (hl1 : ∀ e' ∈ l1, ¬ (e'.creates ∧ cleanJoin root e.name <+: cleanJoin root e'.name))
+    (hc : e.creates) (n : Nd) (hn : newNode (l1.foldl (overlayStep root mask) t) root mask e = some n) :
+    ((l1 ++ e :: l2).foldl (overlayStep root mask) t).get (cleanJoin root e.name) = some n := by
+  rw [List.foldl_append, List.foldl_cons]
+  apply overlay_keep
+  have h1 := overlay_untouched root mask l1 t _ hq hl1
+  rw [overlayStep_get root mask _ e hc]
+  unfold stepGet; rw [h1]; simp only
+  rw [if_pos rfl]; exact hn
 
 end Ex
